@@ -69,4 +69,14 @@ CHECKS = {
              'reference model, the block outputs must equal the last repeat numbers, nothing may arrive and '
              'no task may remain after shutdown().',
         note='CPython 3.12 asyncio wait_for/Queue semantics; exact virtual time on a 0.5 s grid.'),
+    'C02': dict(
+        level='exploration', design_ref='DESIGN.md 4/C02',
+        technique=PBT + '; own change detector + filter fold producing the expected global delivery log, compared item by item incl. object identity and synchronous-delivery marks',
+        text='Generated output histories over a pool with equal-but-not-identical values (1/True/1.0, fresh '
+             'tuples and lists, immediate repeats) for a sequential sender (on_output + on_every_output) and a '
+             'combinational sender (FuncBlock behind an Input, one or several puts per evaluation), 0-3 events per '
+             'trigger with 0-2 filters over shared recorders; the complete ordered delivery log, every data item '
+             '(type-exact; previous/value by identity) and the position of the deliveries between the marks taken '
+             'around set_output() are compared with the model.',
+        note='NaN excluded; the result of Event.send() is not observable for output events.'),
 }
